@@ -217,6 +217,8 @@ PROPS = {
             part('block', GEN, 250, 5000, monitors=[M.mon_c08], props=['C08'], chunk=80, sub='block'),
             part('flow-sqlite', FLOW, 40, 800, monitors=[M.mon_c08], props=['C08'], sub='plain', variants=1, scheds=['cur-fifo', 'cur-chaos'], snap='live', store='sqlite', restart=0.6, chunk=8),
             part('error-sqlite', ERROR, 40, 800, monitors=[M.mon_c08], props=['C08'], store='sqlite', restart=0.6, chunk=8, snap='live'),
+            part('plain-app', FLOW, 150, 3000, monitors=[M.mon_c08], props=['C08'], sub='plain', variants=2, scheds=ALLSCHED, snap='live', app_packages=True),
+            part('hooks-app', GEN, 100, 2000, monitors=[M.mon_c08], props=['C08'], chunk=60, sub='hooks', app_packages=True),
             part('twoack', ACTIONS, 100, 2000, monitors=[M.mon_c08, M.mon_c08_mirror], props=['C08'], sub='matrix', mirror=True, chunk=50),
             part('twoack-sqlite', ACTIONS, 30, 600, monitors=[M.mon_c08, M.mon_c08_mirror], props=['C08'], sub='matrix', mirror=True, store='sqlite', chunk=8),
         ],
